@@ -3,7 +3,7 @@ import VM.Compose
 /-! Line-protocol driver for compose (slice C19).
 
     T <id> <n>
-    N <ret t|z> <usearg 0|1> <const 0|1> <flag j|-> <pred>*     node i; value ("n<i>", *args, *(kw, v)) or 0 (ret z);
+    N <ret t|z> <usearg 0|1> <const 0|1> <flag j[/k]|-> <pred>*     node i; value ("n<i>", *args, *(kw, v)) or 0 (ret z);
                                                                 pred ::= [<kw>:]<j>[/0]   (keyword name, index-0 key path)
     Q <k> <out>^k <m> <in>^m <value>^m                          holders: x = n (required), y = n+1 (default 7)
     E
@@ -36,7 +36,7 @@ structure NSpec where
   retz : Bool
   usearg : Bool
   const : Bool
-  flag : Option Nat
+  flag : Option (Nat × Option Nat)     -- producer, optional index into its value
   preds : List PUse
 
 def dflt : NSpec := ⟨false, false, false, none, []⟩
@@ -50,6 +50,12 @@ def parsePUse (s : String) : Option PUse :=
   | [j, _] => j.toNat?.map fun n => ⟨n, true, kw⟩
   | _ => none
 
+def parseFlag (s : String) : Option (Nat × Option Nat) :=
+  match s.splitOn "/" with
+  | [j] => j.toNat?.map fun n => (n, none)
+  | [j, k] => match j.toNat?, k.toNat? with | some n, some i => some (n, some i) | _, _ => none
+  | _ => none
+
 def puseRef (p : PUse) : Ref := ⟨p.src, if p.idx0 then [Key.idx 0] else []⟩
 
 def mkCfg (specs : Array NSpec) : ECfg Val :=
@@ -61,7 +67,7 @@ def mkCfg (specs : Array NSpec) : ECfg Val :=
         args := (sp.preds.filter (fun p => p.kw.isNone)).map puseRef ++ (if sp.const then [⟨n + 2 + i, []⟩] else [])
                 ++ (if sp.usearg then [⟨n, []⟩, ⟨n + 1, []⟩] else []),
         kwargs := (sp.preds.filterMap fun p => p.kw.map fun k => (k, puseRef p)),
-        active := sp.flag.map (fun j => (⟨j, []⟩ : Ref)) },
+        active := sp.flag.map (fun p => (⟨p.1, match p.2 with | none => [] | some k => [Key.idx (Int.ofNat k)]⟩ : Ref)) },
     interp := fun f args kws =>
       match f.toNat? with
       | none => .error .usage
@@ -90,7 +96,7 @@ def main : IO Unit := do
       for j in [0:n] do
         match toks (lines[i + 1 + j]!) with
         | "N" :: rt :: ua :: cs :: fl :: ps =>
-          specs := specs.push ⟨rt == "z", ua == "1", cs == "1", fl.toNat?, ps.filterMap parsePUse⟩
+          specs := specs.push ⟨rt == "z", ua == "1", cs == "1", parseFlag fl, ps.filterMap parsePUse⟩
         | _ => pure ()
       let c := mkCfg specs
       i := i + 1 + n
